@@ -12,21 +12,27 @@ from harness.common import Run, coq_R, frac
 
 META = dict(
     technique="Coq theorems over R (vectors as list R, any dimension) about definitions regenerated from the code: trajectories / "
-              "attachment / event terms by tracing the running node functions, compute_orthonormal_basis and the two "
-              "_center_xi_realizations by a fail-closed python-ast translation, the DAG wiring by introspection; "
+              "attachment / event terms by tracing the running node functions, compute_orthonormal_basis (every branch) and every "
+              "_center_xi_realizations of the source by a fail-closed python-ast translation, the DAG wiring by introspection; "
               "kernel-checked interval lemmas tie the generated definitions to real tensor outputs",
     level_text="Unbounded theorems: the gauge move (xi - m, log_v0 + m[, n_log_nu + m]) leaves the generated trajectory, attachment and "
                "Weibull event terms of logistic / linear / joint (with and without sources) unchanged for all reals; centred xi have "
                "mean 0; the Householder basis is invariant under d -> c d (c > 0) and, in any dimension, every kept column, every "
                "row of (B betas)^T and every row of sources (B betas)^T is orthogonal to G o d when (G o d)_0 <> 0 (always true "
                "for the directions the models pass); the translated re-centring scripts perform exactly the gauge move and touch "
-               "nothing else.  The model is regenerated from the source on every run.",
+               "nothing else.  Extension: every branch of compute_orthonormal_basis (scalar / diagonal / full metric, any strip_col, any "
+               "dimension): kept columns orthonormal for the canonical inner product whenever d^T G d <> 0, orthogonal to d for x^T G y "
+               "when (G d)_strip_col <> 0 (refuted without the proviso), scale invariance; every class defining "
+               "_center_xi_realizations (ast scan of leaspy/models) performs exactly the gauge move, n_log_nu included iff the model has "
+               "it; the mixture model's own copy leaves its trajectory / attachment unchanged, its sources centring is proved NOT to be "
+               "a gauge change.  The model is regenerated from the source on every run.",
     level_note="Trusted: Coq kernel; stdlib real-number axioms as printed; the tracer (harness/translate/formulas.py) and the two "
                "ast translators in harness/props/c10.py; Coq-Interval for the generated enclosure lemmas only; torch kernels "
                "(matmul, norm, sign, eye, cat, mean) modelled by hand in Formulas/Ortho.v / Gauge.v and compared entry-wise with "
-               "real outputs; float rounding is outside the theorems (oracle tolerances stated).  Not covered: the 0-D / 2-D "
-               "metric branches of compute_orthonormal_basis and strip_col <> 0 (unused by the models), the mixture model "
-               "(not in the property's quantifier), freshness of reads after the puts (C01).",
+               "real outputs; float rounding is outside the theorems (oracle tolerances stated).  Not covered: positive "
+               "definiteness of a 2-D metric (not checked by the code: (G d)_j <> 0 / d^T G d <> 0 stay hypotheses), the mixture model "
+               "inside real fits (not in the property's quantifier; its compute_sufficient_statistics also centres the sources), "
+               "freshness of reads after the puts (C01).",
     design_ref="DESIGN.md section 4 C10",
 )
 
@@ -35,11 +41,23 @@ OBLIGATIONS = [
     "C10_basis_collinear", "C10_gauge_basis", "C10_orthogonal", "C10_orthogonal_first_zero_refuted",
     "C10_direction_positive", "C10_mixing_orthogonal", "C10_space_shift_orthogonal", "C10_metric_is_trajectory_metric",
     "C10_script", "C10_script_joint", "C10_tie_ortho_basis", "C10_tie_wiring",
+    # extension: every branch of compute_orthonormal_basis, orthonormality
+    "C10_tie_ortho_branches", "C10_ortho_branches", "C10_ortho_branches_zero_pivot_refuted", "C10_orthonormal_branches",
+    "C10_orthonormal", "C10_orthonormal_metric_refuted", "C10_basis_collinear_branches", "C10_mixing_orthogonal_branches",
+    "C10_orthonormal_nonzero_direction",
+    # extension: every copy of _center_xi_realizations, the mixture model
+    "C10_script_all_classes", "C10_step_is_pure_gauge_all_classes", "C10_gauge_mixture", "C10_mixture_orthogonal", "C10_mixture_sources_centring_refuted",
 ]
 
 KINDS_GAUGE = ["logistic", "linear", "joint"]          # model kinds with the re-centring step
 KINDS_ORTHO = ["logistic", "linear", "joint", "shared_speed_logistic"]   # kinds with an orthonormal basis
-SHORT = {"logistic": "logistic", "linear": "linear", "joint": "joint", "shared_speed_logistic": "shared"}
+SHORT = {"logistic": "logistic", "linear": "linear", "joint": "joint", "shared_speed_logistic": "shared", "mixture_logistic": "mixture"}
+# extension: every shipped kind is built and asked whether its class resolves a `_center_xi_realizations` (KINDS_GAUGE + the mixture
+# model today); KINDS_STEP = the kinds on which the step alone is exercised (oracle + interval lemmas)
+KINDS_ALL = ["logistic", "linear", "shared_speed_logistic", "joint", "mixture_logistic"]
+KINDS_MIXTURE = ["mixture_logistic"]                      # outside the property's quantifier: has its own copy of the step
+KINDS_STEP = KINDS_GAUGE + KINDS_MIXTURE
+KINDS_WIRING = KINDS_ORTHO + KINDS_MIXTURE
 
 # canonical parameter order of the generated scalar definitions
 ORDER = ["y", "noise_std", "event_time", "event_bool", "log_g", "g", "log_v0", "log_rho", "n_log_nu", "deltas_padded",
@@ -156,6 +174,22 @@ def traced_definitions(out, sigs):
                     raise Untranslatable("joint nll_attach_ind is no longer Sum(nll_attach_y_ind, nll_attach_event_ind)")
 
 
+def traced_definitions_mixture(out, sigs):
+    """the mixture model (sources are mandatory): trajectory and attachment term, the DAG cut at `space_shifts`"""
+    from harness.translate.formulas import expr_of
+    from leaspy.constants import constants as cst
+    named = {Fraction(*float(cst.INFINITY).as_integer_ratio()): INFINITY_NAME}
+    for kind in KINDS_MIXTURE:
+        m = build_model(kind, 3, 1)
+        st = symbolic(m)
+        for short, node in (("traj", "model"), ("attach", "nll_attach_ind")):
+            e = expr_of(st[node])
+            ps = params_of(e)
+            name = f"gen_{SHORT[kind]}_{short}_src"
+            out.append(defn(name, ps, e, named))
+            sigs[name] = ps
+
+
 # ============================================================================== T1 (b): compute_orthonormal_basis by ast
 
 
@@ -163,8 +197,12 @@ class OrthoTranslator:
     """Straight-line translation of utils/linalg.py:compute_orthonormal_basis for a 1-D direction and a 1-D metric,
     strip_col at its default.  Types: S scalar, V vector, C vector viewed as a column, M matrix, N nat, SH shape."""
 
-    def __init__(self, fn: ast.FunctionDef):
+    def __init__(self, fn: ast.FunctionDef, branch: int = 1, strip_param: bool = False):
+        """branch = number of dimensions of G_metric (0, 1, 2); strip_param: strip_col stays a parameter (any value) instead of
+        being replaced by its literal default"""
         self.fn = fn
+        self.branch = branch
+        self.strip_param = strip_param
         a = fn.args
         pos = [x.arg for x in a.args]
         if pos != ["dgamma_t0", "G_metric"] or [x.arg for x in a.kwonlyargs] != ["strip_col"]:
@@ -173,7 +211,7 @@ class OrthoTranslator:
         if not (isinstance(d, ast.Constant) and isinstance(d.value, int) and not isinstance(d.value, bool) and d.value >= 0):
             raise Untranslatable("strip_col default is not a non-negative int literal")
         self.strip = d.value
-        self.env = {"dgamma_t0": "V", "G_metric": "V", "strip_col": "N"}
+        self.env = {"dgamma_t0": "V", "G_metric": {0: "S", 1: "V", 2: "M"}[branch], "strip_col": "N"}
         self.shape_of = {}
         self.lets = []
         self.pre = []
@@ -182,7 +220,7 @@ class OrthoTranslator:
     # -- expressions
     def nat(self, n):
         if isinstance(n, ast.Name) and n.id == "strip_col":
-            return str(self.strip)
+            return "strip_col" if self.strip_param else str(self.strip)
         if isinstance(n, ast.Name) and self.env.get(n.id) == "N":
             return n.id
         if isinstance(n, ast.Constant) and isinstance(n.value, int) and not isinstance(n.value, bool) and n.value >= 0:
@@ -219,6 +257,7 @@ class OrthoTranslator:
                 ("Mult", "V", "V"): (f"(vmul {a} {b})", "V"), ("Sub", "V", "V"): (f"(vsub {a} {b})", "V"),
                 ("Add", "V", "V"): (f"(vadd {a} {b})", "V"), ("Div", "V", "S"): (f"(vdivs {a} {b})", "V"),
                 ("Mult", "C", "V"): (f"(outer {a} {b})", "M"), ("Sub", "M", "M"): (f"(msub {a} {b})", "M"),
+                ("MatMult", "M", "V"): (f"(matvec {a} {b})", "V"),
             }
             if (op, ta, tb) not in table:
                 raise Untranslatable(f"operator {op} on types {ta},{tb} in {ast.unparse(n)}")
@@ -236,6 +275,11 @@ class OrthoTranslator:
                 if fn == "torch.zeros_like" and t == "V":
                     return f"(vzeros_like {c})", "V"
                 raise Untranslatable(f"{fn} on type {t}")
+            if isinstance(n.func, ast.Attribute) and n.func.attr == "item" and not n.args and not n.keywords:
+                c, t = self.expr(n.func.value)
+                if t == "S":          # the python number of a 0-d tensor
+                    return c, "S"
+                raise Untranslatable(f"item() on type {t}")
             if isinstance(n.func, ast.Attribute) and n.func.attr == "view" and not n.keywords:
                 c, t = self.expr(n.func.value)
                 if t == "V" and ast.unparse(ast.Tuple(n.args, ast.Load())) == "(-1, 1)":
@@ -277,6 +321,11 @@ class OrthoTranslator:
             self.pre.append("Forall (fun x => 0 < x) G_metric")
         elif t == "G_shape != (dimension,)" and self.shape_of.get("G_shape") == "G_metric" and self.env.get("dimension") == "N":
             self.pre.append("length G_metric = dimension")
+        elif t == "G_metric.item() <= 0" and self.env["G_metric"] == "S":
+            self.pre.append("0 < G_metric")
+        elif t == "G_shape != (dimension, dimension)" and self.shape_of.get("G_shape") == "G_metric" and self.env.get("dimension") == "N" \
+                and self.env["G_metric"] == "M":
+            self.pre.append("length G_metric = dimension /\\ Forall (fun r => length r = dimension) G_metric")
         else:
             raise Untranslatable(f"unknown guard `{t}`")
 
@@ -288,7 +337,7 @@ class OrthoTranslator:
             if t == "dgamma_t0.ndim == 1" and self.env["dgamma_t0"] == "V":
                 return
             if t == "isinstance(strip_col, int) and 0 <= strip_col < dimension" and self.env.get("dimension") == "N":
-                self.pre.append(f"({self.strip} < dimension)%nat")
+                self.pre.append(f"({'strip_col' if self.strip_param else self.strip} < dimension)%nat")
                 return
             raise Untranslatable(f"unknown assertion `{t}`")
         if isinstance(st, ast.Assign) and len(st.targets) == 1:
@@ -312,20 +361,20 @@ class OrthoTranslator:
                 return
             raise Untranslatable(f"assignment {ast.unparse(st)}")
         if isinstance(st, ast.If):
-            # the chain on len(G_shape): take the branch of a 1-D metric
+            # the chain on len(G_shape): take the branch of a metric with `self.branch` dimensions
             t = ast.unparse(st.test)
             mm = None
             for k in (0, 1, 2):
                 if t == f"len(G_shape) == {k}":
                     mm = k
             if mm is not None and self.shape_of.get("G_shape") == "G_metric":
-                if mm == 1:
+                if mm == self.branch:
                     for s in st.body:
                         self.stmt(s)
                     return
                 if len(st.orelse) == 1 and isinstance(st.orelse[0], ast.If):
                     return self.stmt(st.orelse[0])
-                raise Untranslatable("no branch for a 1-D metric")
+                raise Untranslatable(f"no branch for a {self.branch}-D metric")
             return self.guard(st)
         if isinstance(st, ast.Return) and st.value is not None:
             c, t = self.expr(st.value)
@@ -344,8 +393,16 @@ class OrthoTranslator:
             raise Untranslatable("no return")
         # preconditions mention `dimension`: bind it
         pre = " /\\ ".join(f"({p})" for p in self.pre) or "True"
-        out = "Definition gen_ortho_pre (dgamma_t0 G_metric : list R) : Prop :=\n  let dimension := length dgamma_t0 in\n  " + pre + ".\n\n"
-        out += "Definition gen_ortho_basis (dgamma_t0 G_metric : list R) : matrix :=\n"
+        if self.strip_param:
+            gt = {0: "R", 1: "list R", 2: "matrix"}[self.branch]
+            binders = f"(strip_col : nat) (dgamma_t0 : list R) (G_metric : {gt})"
+            sfx = f"_{self.branch}d"
+        else:
+            if self.branch != 1:
+                raise Untranslatable("the default-strip_col translation is the 1-D branch")
+            binders, sfx = "(dgamma_t0 G_metric : list R)", ""
+        out = f"Definition gen_ortho_pre{sfx} {binders} : Prop :=\n  let dimension := length dgamma_t0 in\n  " + pre + ".\n\n"
+        out += f"Definition gen_ortho_basis{sfx} {binders} : matrix :=\n"
         for n, c in self.lets:
             out += f"  let {n} := {c} in\n"
         out += f"  {self.ret}.\n"
@@ -358,7 +415,25 @@ def translate_linalg():
     fns = [n for n in tree.body if isinstance(n, ast.FunctionDef) and n.name == "compute_orthonormal_basis"]
     if len(fns) != 1:
         raise Untranslatable("compute_orthonormal_basis not found in utils/linalg.py")
-    return OrthoTranslator(fns[0]).run()
+    out = OrthoTranslator(fns[0]).run()
+    # every branch of the code (0-D / 1-D / 2-D metric), strip_col a parameter
+    out += f"\nDefinition gen_ortho_strip_default : nat := {OrthoTranslator(fns[0]).strip}.\n"
+    for b in (0, 1, 2):
+        out += "\n" + OrthoTranslator(fns[0], branch=b, strip_param=True).run()
+    # the chain on the number of dimensions of the metric has exactly these three branches, then a raise
+    chains = [n for n in ast.walk(fns[0]) if isinstance(n, ast.If) and ast.unparse(n.test) == "len(G_shape) == 0"]
+    if len(chains) != 1:
+        raise Untranslatable("no single `if len(G_shape) == 0` chain")
+    c, tests = chains[0], []
+    while True:
+        tests.append(ast.unparse(c.test))
+        if len(c.orelse) == 1 and isinstance(c.orelse[0], ast.If):
+            c = c.orelse[0]
+        else:
+            break
+    if tests != [f"len(G_shape) == {k}" for k in (0, 1, 2)] or not (len(c.orelse) == 1 and isinstance(c.orelse[0], ast.Raise)):
+        raise Untranslatable(f"metric branches are {tests} + {[type(x).__name__ for x in c.orelse]}")
+    return out
 
 
 # ============================================================================== T1 (c): the re-centring scripts by ast
@@ -376,12 +451,12 @@ def _fn_ast(fn):
     return f, body
 
 
-def script_of(cls):
-    """`cls._center_xi_realizations` as a list of ops (Gallina literal) + the python-side op list"""
-    fn = cls._center_xi_realizations.__func__
+def script_of(cls, method="_center_xi_realizations"):
+    """`cls.<method>` (default `_center_xi_realizations`) as a list of ops (Gallina literals)"""
+    fn = getattr(cls, method).__func__
     f, body = _fn_ast(fn)
     if [a.arg for a in f.args.args] != ["cls", "state"]:
-        raise Untranslatable("_center_xi_realizations signature changed")
+        raise Untranslatable(f"{method} signature changed")
     locs = set()
 
     def ex(n):
@@ -414,13 +489,23 @@ def script_of(cls):
     return ops
 
 
-def check_css(cls):
-    """compute_sufficient_statistics must be: centre first, then the parent's statistics (which only reads the state)"""
+def check_css(cls, allow_extra=False):
+    """compute_sufficient_statistics must be: centre first, then the parent's statistics (which only reads the state).
+    `allow_extra` (mixture model only): further `cls._center_<x>_realizations(state)` calls may sit between the two; their
+    method names are returned (they are translated and reported separately, they are not part of the xi step)."""
+    import re
     fn = cls.compute_sufficient_statistics.__func__
     f, body = _fn_ast(fn)
     got = [ast.unparse(s) for s in body]
     want = ["cls._center_xi_realizations(state)", "return super().compute_sufficient_statistics(state)"]
-    if got != want:
+    extra = []
+    if allow_extra and len(got) >= 2 and got[0] == want[0] and got[-1] == want[1]:
+        for g in got[1:-1]:
+            mm = re.fullmatch(r"cls\.(_center_[a-z_]+_realizations)\(state\)", g)
+            if not mm or mm.group(1) == "_center_xi_realizations":
+                raise Untranslatable(f"{cls.__name__}.compute_sufficient_statistics: unexpected statement `{g}`")
+            extra.append(mm.group(1))
+    elif got != want:
         raise Untranslatable(f"{cls.__name__}.compute_sufficient_statistics is {got}, expected {want}")
     # the parent implementation reached by super(): no assignment into the state
     owner = next(k for k in cls.__mro__ if "compute_sufficient_statistics" in k.__dict__)
@@ -434,6 +519,61 @@ def check_css(cls):
         if isinstance(n, ast.Call) and isinstance(n.func, ast.Attribute) and isinstance(n.func.value, ast.Name) \
                 and n.func.value.id == "state" and n.func.attr in ("put", "__setitem__", "revert", "put_individual_latent_variables"):
             raise Untranslatable(f"{parent.__name__}.compute_sufficient_statistics modifies the state")
+    return extra
+
+
+def recentring_classes_in_source():
+    """every class of leaspy/models/**.py whose body defines `_center_xi_realizations`: {class name: file}"""
+    from harness.common import SRC
+    found = {}
+    for path in sorted((SRC / "models").rglob("*.py")):
+        tree = ast.parse(path.read_text())
+        for n in ast.walk(tree):
+            if isinstance(n, ast.ClassDef) and any(isinstance(b, (ast.FunctionDef, ast.AsyncFunctionDef)) and b.name == "_center_xi_realizations"
+                                                    for b in n.body):
+                if n.name in found:
+                    raise Untranslatable(f"two classes named {n.name} define _center_xi_realizations")
+                found[n.name] = str(path.relative_to(SRC))
+    if not found:
+        raise Untranslatable("no class defines _center_xi_realizations")
+    return found
+
+
+def all_scripts(out):
+    """(extension) the step of EVERY class that defines it, through every shipped kind that resolves to it:
+    gen_center_scripts = [((kind, defining class), (model has n_log_nu, script))], gen_center_classes = the defining classes
+    found in the source (each must be reached by a kind), gen_center_extra_<kind>_<x> = the other centring methods the mixture
+    model calls in the same compute_sufficient_statistics."""
+    in_source = recentring_classes_in_source()
+    entries, owners, extras = [], {}, {}
+    for kind in KINDS_ALL:
+        m = build_model(kind, 3, 1)
+        cls = type(m)
+        if not hasattr(cls, "_center_xi_realizations"):
+            continue
+        owner = next(k for k in cls.__mro__ if "_center_xi_realizations" in k.__dict__)
+        if owner.__name__ not in in_source:
+            raise Untranslatable(f"{kind}: _center_xi_realizations resolves to {owner.__name__}, not found by the source scan")
+        if kind not in KINDS_STEP:
+            raise Untranslatable(f"kind {kind} has a re-centring step but is not in KINDS_STEP")
+        ex = check_css(cls, allow_extra=kind in KINDS_MIXTURE)
+        nu = "n_log_nu" in m.state.dag
+        ops = script_of(cls)
+        owners.setdefault(owner.__name__, []).append(kind)
+        entries.append(f'(("{kind}", "{owner.__name__}"), ({"true" if nu else "false"},\n     [ ' + ";\n       ".join(ops) + " ]))")
+        for meth in ex:
+            x = meth[len("_center_"):-len("_realizations")]
+            extras[f"gen_center_extra_{SHORT[kind]}_{x}"] = script_of(cls, meth)
+    missing = [c for c in in_source if c not in owners]
+    if missing:
+        raise Untranslatable(f"classes defining _center_xi_realizations that no shipped kind resolves to: {missing}")
+    if sorted(k for v in owners.values() for k in v) != sorted(KINDS_STEP):
+        raise Untranslatable(f"kinds with the step are {owners}, expected {KINDS_STEP}")
+    out.append("Definition gen_center_scripts : list ((string * string) * (bool * list sop)) :=\n  [ " + ";\n    ".join(entries) + " ].\n")
+    out.append("Definition gen_center_classes : list string :=\n  [ " + "; ".join(f'"{c}"' for c in sorted(in_source)) + " ].\n")
+    for name, ops in sorted(extras.items()):
+        out.append(f"Definition {name} : list sop :=\n  [ " + ";\n    ".join(ops) + " ].\n")
+    return dict(classes=in_source, kinds_by_class=owners, extra_scripts=sorted(extras))
 
 
 # ============================================================================== T1 (d): DAG wiring by introspection
@@ -444,7 +584,7 @@ def wiring_definitions(out, sigs):
     from harness.translate.formulas import definition, expr_of
     from leaspy.utils.functional import NamedInputFunction
     from leaspy.utils.linalg import compute_orthonormal_basis
-    for kind in KINDS_ORTHO:
+    for kind in KINDS_WIRING:
         m = build_model(kind, 3, 1)
         dag = m.state.dag
         k = SHORT[kind]
@@ -544,6 +684,9 @@ def translate(run: Run) -> bool:
             ops = script_of(cls)
             classes[kind] = cls.__name__
             out.append(f"Definition gen_center_script_{SHORT[kind]} : list sop :=\n  [ " + ";\n    ".join(ops) + " ].\n")
+        out.append("(* ---- (c') every class defining the step, the mixture model's formulas ---- *)\n")
+        run.extra["recentring_all"] = all_scripts(out)
+        traced_definitions_mixture(out, sigs)
         out.append("(* ---- (d) DAG wiring ---- *)\n")
         wiring_definitions(out, sigs)
         run.gen("GenC10", "\n".join(out))
@@ -676,7 +819,7 @@ def metric_direction(kind, st):
     shared-speed: logit = metric w + rt + ..., the direction of progression is (1,..,1) in logit space and G o d is collinear
     to `metric`."""
     metric = _val(st["metric"]).double().reshape(-1)
-    if kind in ("logistic", "joint", "linear"):
+    if kind in ("logistic", "joint", "linear", "mixture_logistic"):
         return metric ** 2 * _val(st["v0"]).double().reshape(-1)
     if kind == "shared_speed_logistic":
         return metric
@@ -842,8 +985,10 @@ def eval_state(inp, collect=None):
     info.update({"ortho:" + k: v for k, v in i.items()})
     if collect is not None:
         collect(kind, m, st, inp)
-    if kind in KINDS_GAUGE:
-        f, i = recentre_failures(kind, m, st)
+    if kind in KINDS_STEP:
+        # the mixture model: its own copy of `_center_xi_realizations`, exercised ALONE (its compute_sufficient_statistics also
+        # centres the sources, which is not a gauge change: C10_mixture_sources_centring_refuted, `mixture_full_step_on_code`)
+        f, i = recentre_failures(kind, m, st, call=(type(m)._center_xi_realizations if kind in KINDS_MIXTURE else None))
         fails += f
         info.update(i)
         if not any(s.startswith(f"recentre:{kind}:raises") for s, *_ in f):
@@ -891,7 +1036,8 @@ def shrink_state(inp, sig):
 STATE_CONFIGS = [("logistic", 1, None), ("logistic", 3, 0), ("logistic", 3, 2), ("logistic", 2, 1), ("logistic", 4, 3),
                  ("linear", 1, None), ("linear", 3, 0), ("linear", 3, 1), ("linear", 4, 2),
                  ("joint", 1, None), ("joint", 3, 1), ("joint", 3, 2),
-                 ("shared_speed_logistic", 3, 1), ("shared_speed_logistic", 4, 2), ("shared_speed_logistic", 2, 1)]
+                 ("shared_speed_logistic", 3, 1), ("shared_speed_logistic", 4, 2), ("shared_speed_logistic", 2, 1),
+                 ("mixture_logistic", 3, 1), ("mixture_logistic", 3, 2)]
 
 
 def search_states(run: Run, T, thorough: bool):
@@ -926,20 +1072,23 @@ def search_states(run: Run, T, thorough: bool):
             inp = dict(what="state", kind=kind, n_feat=nf, source_dimension=sd, cohort=cohort, style=style,
                        values=random_values(st, rng, style, kind))
             want_t3 = T is not None and r < (1 if not thorough else 4)
-            fails, info = eval_state(inp, collect=(T.collect if want_t3 else None))
+            # (extension) the cohorts with a single-visit individual (r = 1) and with ONE individual (r = 2): the re-centred values
+            # the real step leaves in the state against center / shift (mean ...) of the values before — script lemmas only
+            script_only = T is not None and not want_t3 and kind in KINDS_STEP and r in (1, 2)
+            fails, info = eval_state(inp, collect=(T.collect if want_t3 else (T.collect_script if script_only else None)))
             src = bool(sd)
             m_shift = abs(info.get("mean_before", 0.0))
-            nontrivial = (kind in KINDS_GAUGE and m_shift > 1e-3) or (src and info.get("ortho:mixing-row-nontrivial", False))
+            nontrivial = (kind in KINDS_STEP and m_shift > 1e-3) or (src and info.get("ortho:mixing-row-nontrivial", False))
             run.case(("state", kind, nf, sd, json.dumps(inp["values"], sort_keys=True), json.dumps(cohort, sort_keys=True)), nontrivial=nontrivial)
             run.count("kind", f"{kind}/{'sources' if src else 'no-sources'}")
             run.count("style", style)
-            if kind in KINDS_GAUGE:
+            if kind in KINDS_STEP:
                 run.count("mean_xi_before", "0" if m_shift <= 1e-3 else ("<=1" if m_shift <= 1 else ">1"))
             for k in ("dev:model", "dev:nll_attach_ind", "dev:nll_attach_event_ind", "ortho:mixing-row", "ortho:space-shift"):
                 if k in info and info[k] == info[k] and info[k] != float("inf"):
                     run.extra.setdefault("max_observed", {})
                     run.extra["max_observed"][k] = max(run.extra["max_observed"].get(k, 0.0), info[k])
-            if len(run.samples) < 3 and src and kind in KINDS_GAUGE and r == 0:
+            if len(run.samples) < 3 and src and kind in KINDS_STEP and r == 0:
                 run.sample(dict(inp, observed=info))
             for sig, what, exp_v, obs in fails:
                 small = inp
@@ -954,9 +1103,36 @@ def search_states(run: Run, T, thorough: bool):
                 run.fail(sig, what, small, expected=exp_v, observed=obs)
 
 
+def mixture_full_step_on_code(run: Run):
+    """C10_mixture_sources_centring_refuted replayed on the real mixture model: `_center_sources_realizations` alone moves the space
+    shifts and the trajectories (recorded; the mixture model is outside the property's quantifier, so this is no violation), while
+    `_center_xi_realizations` alone does not (that part is an oracle of `eval_state`)."""
+    import torch
+    rng = run.rng("mixture-full-step")
+    kind = KINDS_MIXTURE[0]
+    try:
+        m, ds, st = base_state(kind, 3, 1, n_ind=3, seed=3)
+        vals = random_values(st, rng, "plain", kind)
+        vals["sources"] = [[1.0], [3.0], [-0.5]]
+        put_values(st, vals)
+        w0, y0 = _val(st["space_shifts"]).double().clone(), _val(st["model"]).double().clone()
+        type(m)._center_sources_realizations(st)
+        w1, y1 = _val(st["space_shifts"]).double(), _val(st["model"]).double()
+        dw, dy = float((w1 - w0).abs().max()), float(torch.nan_to_num(y1 - y0).abs().max())
+        run.extra["mixture_full_step_on_code"] = dict(values={k: vals[k] for k in ("sources", "betas", "log_v0")},
+                                                      mean_sources_after=float(_val(st["sources"]).double().mean()),
+                                                      max_space_shift_change=dw, max_trajectory_change=dy,
+                                                      agrees_with_theorem=dw > 1e-3)
+        if not dw > 1e-3:
+            run.broken("correspondence:mixture-sources-centring", "the code's _center_sources_realizations leaves the space shifts unchanged on "
+                       f"sources = [1, 3, -0.5] (change {dw}); C10_mixture_sources_centring_refuted says they move", kind="broken-correspondence")
+    except Exception as e:
+        run.broken("correspondence:mixture-sources-centring", f"{type(e).__name__}: {e}", kind="broken-correspondence")
+
+
 # ============================================================================== T3: kernel-checked enclosures
 
-LIST_FUNS = ("vmul vzeros_like vset vget vnorm vsub vadd vscale vdivs msub eye outer mcat_cols cols_before cols_from dot map nth length "
+LIST_FUNS = ("matvec vmul vzeros_like vset vget vnorm vsub vadd vscale vdivs msub eye outer mcat_cols cols_before cols_from dot map nth length "
              "repeat firstn skipn app Nat.add transpose matmul col ncols seq mean rsum center shift fold_right INR sigmoid tpow Rmax Rmin")
 
 T3_HEADER_TMPL = """From Coq Require Import Reals List Lra.
@@ -1068,6 +1244,12 @@ class T3:
     def app(self, name, st, i=0, j=0, k=0):
         return "(" + " ".join([name] + [_R(self.arg(p, st, i, j, k)) for p in self.sigs[name]]) + ")"
 
+    def collect_script(self, kind, m, st, inp, after=False):
+        """only the re-centring script lemmas (values before the step are recorded, values after are compared)"""
+        if after:
+            return self.collect(kind, m, st, inp, after=True)
+        self.before = {n: _val(st[n]).reshape(-1).double().tolist() for n in ("xi", "log_v0") + (("n_log_nu",) if kind == "joint" else ())}
+
     def collect(self, kind, m, st, inp, after=False):
         import torch
         k_ = SHORT[kind]
@@ -1077,19 +1259,20 @@ class T3:
         if after:
             # the script: xi' = xi - mean xi, log_v0' = log_v0 + mean xi (joint: n_log_nu too), on the values read before
             b = self.before
-            if b is None or kind not in KINDS_GAUGE:
+            if b is None or kind not in KINDS_STEP:
                 return
             xs = _Rl(b["xi"])
             xi1 = _val(st["xi"]).reshape(-1)
             i = self.rng.randrange(len(b["xi"]))
-            self.add(f"nth {i} (center {xs}) 0", xi1[i], _tolq(1, 2e-6), what="script:xi", **cfg)
+            self.add(f"nth {i} (center {xs}) 0", xi1[i], _tolq(1, 2e-6), what="script:xi", n_ind=len(b["xi"]),
+                     cohort=inp.get("cohort"), **cfg)
             for name in ("log_v0",) + (("n_log_nu",) if kind == "joint" else ()):
                 v1 = _val(st[name]).reshape(-1)
                 k = self.rng.randrange(len(b[name]))
                 self.add(f"nth {k} (shift (mean {xs}) {_Rl(b[name])}) 0", v1[k], _tolq(float(v1[k]), 2e-6), what=f"script:{name}", **cfg)
             self.before = None
             return
-        if kind in KINDS_GAUGE:
+        if kind in KINDS_STEP:
             self.before = {n: _val(st[n]).reshape(-1).double().tolist() for n in ("xi", "log_v0") + (("n_log_nu",) if kind == "joint" else ())}
         tw = st["t"].weight if st["t"].weight is not None else torch.ones_like(st["t"].value)
         yw = st["y"].weight if st["y"].weight is not None else torch.ones_like(st["y"].value)
@@ -1103,7 +1286,7 @@ class T3:
                 k = self.rng.randrange(n_feat)
                 o = model[i, j, k]
                 self.add(self.app(traj, st, i, j, k), o, _tolq(float(o), 5e-6), what="trajectory", index=[i, j, k], **cfg)
-        if kind in KINDS_GAUGE:
+        if kind in KINDS_STEP:
             att = f"gen_{k_}_attach{sfx}"
             node = "nll_attach_y_ind" if kind == "joint" else "nll_attach_ind"
             nobs = [(int((yw[i] > 0).sum()), i) for i in range(n_ind)]
@@ -1148,34 +1331,132 @@ class T3:
                  what="space-shift", index=[i, c], **cfg)
 
     def prove(self):
-        names = sorted(self.sigs) + [f"gen_{SHORT[k]}_{x}" for k in KINDS_ORTHO for x in ("basis", "mixing", "space_shifts")] + ["gen_ortho_basis"]
+        names = sorted(self.sigs) + [f"gen_{SHORT[k]}_{x}" for k in KINDS_WIRING for x in ("basis", "mixing", "space_shifts")] + ["gen_ortho_basis", "gen_ortho_basis_0d", "gen_ortho_basis_1d", "gen_ortho_basis_2d"]
         hdr = T3_HEADER_TMPL.replace("GEN_NAMES", " ".join(dict.fromkeys(names))).replace("LIST_FUNS", LIST_FUNS)
         return self.run.interval_lemmas("t3", hdr, self.lemmas, "t3.", shard=max(12, len(self.lemmas) // (14 if self.thorough else 8) + 1))
 
 
+ORTHONORMAL_ABS = 1e-5   # |B^T B - I| entry-wise (float32)
+
+
+def _metric_ndim(G):
+    return 0 if not isinstance(G, (list, tuple)) else (2 if G and isinstance(G[0], (list, tuple)) else 1)
+
+
 def basis_failures(inp):
-    """the real compute_orthonormal_basis on an explicit direction / metric: kept columns orthogonal to G o d
-    (precondition of the models: first coordinate of G o d non-zero).  Returns (failures, basis or None)."""
+    """the real compute_orthonormal_basis on an explicit direction / metric (scalar, vector or matrix) / strip_col:
+    shape, kept columns orthogonal to G d (when coordinate strip_col of G d is non-zero: C10_ortho_branches), kept columns
+    orthonormal for the canonical inner product (C10_orthonormal_branches).  Returns (failures, basis or None)."""
     import torch
     from leaspy.utils.linalg import compute_orthonormal_basis
     dt = getattr(torch, inp.get("dtype", "float32"))
     d, G = torch.tensor(inp["d"], dtype=dt), torch.tensor(inp["G"], dtype=dt)
+    nd = _metric_ndim(inp["G"])
+    strip = inp.get("strip_col")
+    pre = "basis" if (nd == 1 and not strip) else f"basis:{nd}d-metric" + (":strip_col" if strip else "")
     try:
-        B = compute_orthonormal_basis(d, G)
+        B = compute_orthonormal_basis(d, G) if strip is None else compute_orthonormal_basis(d, G, strip_col=int(strip))
     except Exception as e:
-        return [(f"basis:raises:{type(e).__name__}", f"compute_orthonormal_basis raised {type(e).__name__}: {e}", None, None)], None
+        return [(f"{pre}:raises:{type(e).__name__}", f"compute_orthonormal_basis raised {type(e).__name__}: {e}", None, None)], None
     n = len(inp["d"])
     if tuple(B.shape) != (n, n - 1):
-        return [("basis:shape", f"basis has shape {list(B.shape)} for dimension {n}", [n, n - 1], list(B.shape))], B
-    D = (G.double() * d.double())
-    if float(D[0]) == 0.0:
-        return [], B
+        return [(f"{pre}:shape", f"basis has shape {list(B.shape)} for dimension {n}", [n, n - 1], list(B.shape))], B
+    Gd, dd = G.double(), d.double()
+    D = Gd @ dd if nd == 2 else Gd * dd
+    fails = []
+    if float(D.abs().max()) > 0 and n > 1:
+        gram = B.double().t() @ B.double()
+        dev = (gram - torch.eye(n - 1, dtype=torch.float64)).abs()
+        if not torch.isfinite(dev).all() or float(dev.max()) > ORTHONORMAL_ABS:
+            a, b = divmod(int(torch.nan_to_num(dev, nan=float("inf")).argmax()), n - 1)
+            fails.append((f"{pre}:columns-not-orthonormal", f"columns {a}, {b} of the basis: q_a . q_b = {float(gram[a, b]):.6g}",
+                          1.0 if a == b else 0.0, float(gram[a, b])))
+    if float(D[int(strip or 0)]) == 0.0:
+        return fails, B
     r = (B.double().t() @ D).abs() / (B.double().norm(dim=0) * D.norm()).clamp(min=1e-300)
     if not torch.isfinite(r).all() or float(r.max()) > ORTHO_REL:
         j = int(torch.nan_to_num(r, nan=float("inf")).argmax())
-        return [("basis:column-not-orthogonal", f"column {j} of the basis is not orthogonal to G o d: |q.Gd|/(|q||Gd|) = {float(r[j]):.3g}",
-                 f"<= {ORTHO_REL}", float(r[j]))], B
-    return [], B
+        fails.append((f"{pre}:column-not-orthogonal", f"column {j} of the basis is not orthogonal to G d: |q.Gd|/(|q||Gd|) = {float(r[j]):.3g}",
+                      f"<= {ORTHO_REL}", float(r[j])))
+    return fails, B
+
+
+def _branch_inputs(rng, n, nd, c):
+    """a dyadic direction (either sign), a positive scalar / positive diagonal / symmetric positive definite matrix, a strip_col"""
+    d = [rng.choice([-1, 1]) * rng.randint(1, 64) / 16 for _ in range(n)]
+    strip = rng.randrange(n)
+    if nd == 0:
+        G = rng.randint(1, 32) / 8
+    elif nd == 1:
+        G = [rng.randint(1, 32) / 8 for _ in range(n)]
+        if strip == 0:
+            strip = n - 1           # strip_col = 0 with a 1-D metric is the models' case, covered by the first loop
+    else:
+        A = [[rng.randint(-4, 4) / 4 for _ in range(n)] for _ in range(n)]
+        G = [[sum(A[i][k] * A[j][k] for k in range(n)) + (0.5 if i == j else 0.0) for j in range(n)] for i in range(n)]   # A A^T + I/2: SPD, non-diagonal
+    if c == 1:
+        # pivot coordinate of G d exactly zero (region of C10_ortho_branches_zero_pivot_refuted): the tie must hold there too
+        if nd == 2:
+            G = [[(G[i][j] if i == j else 0.0) for j in range(n)] for i in range(n)]
+        d[strip] = 0.0
+    return d, G, strip
+
+
+def search_branches(run: Run, T, thorough: bool):
+    """every branch of compute_orthonormal_basis: scalar / diagonal (strip_col <> 0) / full metric, dims 2-6, random strip_col"""
+    rng = run.rng("basis-branches")
+    for n in range(2, 7):
+        for nd in (0, 1, 2):
+            for c in range(3 if thorough else 2):
+                d, G, strip = _branch_inputs(rng, n, nd, c)
+                inp = dict(what="basis", d=d, G=G, strip_col=strip, dtype="float32")
+                fails, B = basis_failures(inp)
+                run.case(("basis", tuple(d), json.dumps(G), strip), nontrivial=d[strip] != 0)
+                run.count("basis", f"{nd}d-metric/dim={n}/pivot={'zero' if c == 1 else 'nonzero'}")
+                for sig, what, e, o in fails:
+                    run.fail(sig, what, inp, expected=e, observed=o)
+                if T is not None and B is not None and tuple(B.shape) == (n, n - 1):
+                    cells = [(r, q) for r in range(n) for q in range(n - 1)]
+                    cells = rng.sample(cells, min(len(cells), 4 if thorough else 1))
+                    Gq = _R(G) if nd == 0 else (_Rl(G) if nd == 1 else _Rm(G))
+                    for r, q in cells:
+                        T.add(f"nth {q} (nth {r} (gen_ortho_basis_{nd}d {strip} {_Rl(d)} {Gq}) []) 0", B[r, q], _tolq(1, 3e-6),
+                              what=f"compute_orthonormal_basis:{nd}d-metric", d=d, G=G, strip_col=strip, index=[r, q])
+            # directed, oracle only: the pivot coordinate of G d dominates (either sign) — u = D - alpha e_j must not cancel
+            # (alpha has the sign opposite to D_j); a reflection with the other sign is mathematically a Householder basis too but
+            # loses the orthogonality in float32 exactly here
+            for sgn, small in ((-1.0, 512), (1.0, 512), (-1.0, 8192), (1.0, 8192)):
+                strip = rng.randrange(n)
+                d = [rng.choice([-1, 1]) * rng.randint(1, 4) / small for _ in range(n)]
+                d[strip] = sgn * rng.randint(2, 8) / 2
+                G = 1.0 if nd == 0 else ([1.0] * n if nd == 1 else [[1.0 if i == j else 0.0 for j in range(n)] for i in range(n)])
+                if nd == 2:
+                    k = (strip + 1) % n
+                    G[k][k] = 2.0
+                    G[strip][k] = G[k][strip] = 1 / 64          # symmetric, positive definite, not diagonal
+                inp = dict(what="basis", d=d, G=G, strip_col=strip, dtype="float32")
+                fails, B = basis_failures(inp)
+                run.case(("basis", tuple(d), json.dumps(G), strip), nontrivial=True)
+                run.count("basis", f"{nd}d-metric/dim={n}/pivot=dominant-{'neg' if sgn < 0 else 'pos'}")
+                for sig, what, e, o in fails:
+                    run.fail(sig, what, inp, expected=e, observed=o)
+    # the witnesses of C10_ortho_branches_zero_pivot_refuted / C10_orthonormal_metric_refuted on the real function
+    import torch
+    rec = {}
+    for nd, G in ((0, 1.0), (1, [1.0, 1.0]), (2, [[1.0, 0.0], [0.0, 1.0]])):
+        _, B = basis_failures(dict(d=[1.0, 0.0], G=G, strip_col=1))
+        dot = None if B is None else float((B.double().t() @ torch.tensor([1.0, 0.0], dtype=torch.float64))[0])
+        rec[f"{nd}d"] = dict(d=[1, 0], G=G, strip_col=1, basis=None if B is None else B.tolist(), column_dot_Gd=dot)
+        if dot is None or abs(dot) <= 0.5:
+            run.broken("correspondence:zero-pivot-witness", f"{nd}-D metric: the code does not reproduce the witness of "
+                       f"C10_ortho_branches_zero_pivot_refuted (dot = {dot})", kind="broken-correspondence")
+    _, B = basis_failures(dict(d=[1.0, 1.0], G=2.0, strip_col=0))
+    mn = None if B is None else float(2.0 * (B.double()[:, 0] ** 2).sum())
+    rec["metric_norm_sqr_scalar_metric_2"] = mn
+    if mn is None or abs(mn - 2.0) > 1e-4:
+        run.broken("correspondence:metric-orthonormal-witness", f"the code does not reproduce the witness of C10_orthonormal_metric_refuted "
+                   f"(metric norm^2 of the kept column = {mn}, theorem: 2)", kind="broken-correspondence")
+    run.extra["branch_witnesses_on_code"] = rec
 
 
 def search_basis(run: Run, T, thorough: bool):
@@ -1264,6 +1545,28 @@ def eval_fit(inp):
         return holder["r"]
 
     model.compute_sufficient_statistics = css
+    # (extension) the mixture model: its own `_center_xi_realizations` is a classmethod called as `cls._center_xi_realizations(state)`;
+    # a recording wrapper is set on the concrete class for the duration of the fit (the real method is the one that runs) and removed
+    # in `finally`.  The step ALONE is checked (the sources centring that follows is not a gauge change and is not part of it).
+    cls, name = type(model), "_center_xi_realizations"
+    had = cls.__dict__.get(name)
+    centre_calls = []
+    if kind in KINDS_MIXTURE:
+        orig = getattr(cls, name)
+
+        def centre(c, state):
+            k = len(centre_calls) + 1
+            done = {}
+
+            def call(st):
+                orig(st)
+                done["r"] = True
+            f2, i2 = recentre_failures(kind, model, state, call=call)
+            centre_calls.append(dict(i2, k=k))
+            fails.extend(x + (k,) for x in f2)
+            if "r" not in done:
+                raise _StopFit()
+        setattr(cls, name, classmethod(centre))
     try:
         synth.fit(kind, n_iter=inp["n_iter"], seed=inp["seed"], n_ind=inp["n_ind"], n_feat=nf, source_dimension=sd, model=model)
     except _StopFit:
@@ -1275,6 +1578,17 @@ def eval_fit(inp):
             del model.compute_sufficient_statistics
         except AttributeError:
             pass
+        if kind in KINDS_MIXTURE:
+            if had is not None:
+                setattr(cls, name, had)
+            else:
+                delattr(cls, name)
+    if kind in KINDS_MIXTURE:
+        for rec, c in zip(log, centre_calls):
+            rec.update({k: v for k, v in c.items() if k != "k"})
+        if not fails and len(centre_calls) != inp["n_iter"]:
+            fails.append((f"fit:{kind}:centring-calls", f"_center_xi_realizations was called {len(centre_calls)} times in a fit of {inp['n_iter']} iterations",
+                          inp["n_iter"], len(centre_calls), len(centre_calls)))
     if not fails and len(log) != inp["n_iter"]:
         fails.append((f"fit:{kind}:statistics-calls", f"compute_sufficient_statistics was called {len(log)} times in a fit of {inp['n_iter']} iterations",
                       inp["n_iter"], len(log), len(log)))
@@ -1282,7 +1596,7 @@ def eval_fit(inp):
 
 
 FIT_CONFIGS = [("logistic", 3, 2, 6), ("logistic", 1, None, 4), ("linear", 3, 1, 5), ("joint", 3, 1, 5), ("joint", 1, None, 4),
-               ("shared_speed_logistic", 3, 1, 4)]
+               ("shared_speed_logistic", 3, 1, 4), ("mixture_logistic", 3, 1, 4)]
 FIT_CONFIGS_THOROUGH = [("logistic", 4, 3, 25), ("logistic", 3, 0, 12), ("linear", 1, None, 12), ("linear", 4, 2, 20), ("joint", 3, 2, 20),
                         ("shared_speed_logistic", 4, 2, 15)]
 
@@ -1293,7 +1607,7 @@ def search_fits(run: Run, thorough: bool):
         fails, log = eval_fit(inp)
         for rec in log:
             run.case(("fit", kind, nf, sd, n_iter, inp["seed"], rec["k"]),
-                     nontrivial=(kind in KINDS_GAUGE and abs(rec.get("mean_before", 0.0)) > 1e-4) or rec.get("ortho:mixing-row-nontrivial", False))
+                     nontrivial=(kind in KINDS_STEP and abs(rec.get("mean_before", 0.0)) > 1e-4) or rec.get("ortho:mixing-row-nontrivial", False))
             run.count("kind", f"fit:{kind}/{'sources' if sd else 'no-sources'}")
         if log and len(run.samples) < 5:
             run.sample(dict(inp, iterations=[{k: (round(v, 10) if isinstance(v, float) else v) for k, v in r.items()} for r in log[:3]]))
@@ -1320,7 +1634,10 @@ def check(run: Run, tie: bool):
                 "state[name] = tensor to random dyadic values (styles: plain, wide ranges, all xi equal, first coordinate dominant; mean xi "
                 "shifted by 0, +-0.25, +-0.75, +-2), then the real compute_sufficient_statistics: model / nll_attach_ind / nll_attach_y_ind / "
                 "nll_attach_event_ind before vs after, mean xi after, rows of mixing_matrix and space_shifts against G o d recomputed from "
-                "the `metric` and `v0` the trajectory itself uses; (2) compute_orthonormal_basis on random directions (either sign, zero first coordinate) and metrics, dims 2-6; "
+                "the `metric` and `v0` the trajectory itself uses; (2) compute_orthonormal_basis on random directions (either sign, zero first coordinate) and metrics, dims 2-6, and (extension) "
+                "with a scalar / diagonal / full positive definite metric and a random strip_col (zero and dominant pivot coordinates "
+                "included): orthogonality and orthonormality of the returned columns; (2') mixture states through the mixture model's own "
+                "_center_xi_realizations; "
                 "(3) short real fits with a recording wrapper around compute_sufficient_statistics, same oracles at every iteration; "
                 "(4) Coq-Interval lemmas: entries of model, attachment sums, event terms, v0 / metric_sqr, orthonormal_basis, mixing_matrix, "
                 "space_shifts, re-centred xi / log_v0 / n_log_nu of those very states against the GENERATED definitions.  "
@@ -1328,8 +1645,10 @@ def check(run: Run, tie: bool):
     T = T3(run, run.extra["generated_signatures"]) if tie and "generated_signatures" in run.extra else None
     run.log("implementation: compute_orthonormal_basis")
     search_basis(run, T, thorough)
+    search_branches(run, T, thorough)
     run.log("implementation: real states")
     search_states(run, T, thorough)
+    mixture_full_step_on_code(run)
     run.log("implementation: short real fits")
     search_fits(run, thorough)
     if T is not None:
@@ -1387,7 +1706,8 @@ def replay(run: Run, path: str):
             print(f"  {k} = {v}")
     elif inp["what"] == "basis":
         fails, B = basis_failures(inp)
-        print("compute_orthonormal_basis(d =", inp["d"], ", G =", inp["G"], ") =", None if B is None else B.tolist())
+        print("compute_orthonormal_basis(d =", inp["d"], ", G =", inp["G"], ", strip_col =", inp.get("strip_col", "default"), ") =",
+              None if B is None else B.tolist())
     elif inp["what"] == "fit":
         f5, log = eval_fit(inp)
         fails = [x[:4] for x in f5]
